@@ -94,11 +94,35 @@ def r1_r2_listener(ctx, fam):
                                                     ast.AsyncFor))})
             hs = set()
             for p in run.paths:
-                for e in p.events:
-                    if e.kind == 'call' and \
-                            (e.callee() or '').startswith('_handle_') and \
-                            e.recv() == 'self':
-                        hs.add(e.callee())
+                mine = [e for e in p.events if e.kind == 'call' and
+                        (e.callee() or '').startswith('_handle_') and
+                        e.recv() == 'self']
+                for e in mine:
+                    hs.add(e.callee())
+                # must-dispatch: a well-formed message (dict carrying
+                # 'method') of a known method from another host reaches its
+                # handler exactly once on EVERY path, whatever else the
+                # listener tests on the way
+                wellformed = [c for c in p.conds if c.pol and
+                              "'method' in " in U(run.expand(c.atom))]
+                if wellformed and p.exit != 'cut' and \
+                        (meth == 'callback' or (not own and meth in METHODS)):
+                    other = [('' if c.pol else 'not ') + c.text
+                             for c in p.conds
+                             if c.at >= wellformed[0].at and
+                             c is not wellformed[0] and
+                             "['method']" not in c.text and
+                             'host_id' not in c.text]
+                    ctx.check(len(mine) == 1, construct, "every path of a "
+                              "well-formed '%s' message reaches its handler "
+                              'exactly once' % meth,
+                              key='must-dispatch ' + meth,
+                              reason="a well-formed '%s' message from "
+                              'another host is handled %d time(s) on the '
+                              'path where %s' % (meth, len(mine),
+                                                 ' and '.join(other) or
+                                                 'nothing else is tested'),
+                              where=where(th), rid='C07.R1')
             arms[(meth, own)] = hs
     for meth in METHODS:
         want = {'_handle_' + meth}
